@@ -289,13 +289,20 @@ class _VersionIndependentUnmarshaller:
         if n == 0:
             return self.r_ref(long(0) if self.python2_bytecode else 0, save_ref)
         size = abs(n)
-        d = long(0)
-        for j in range(0, size):
-            md = int(unpack("<h", self.fp.read(2))[0])
-            # This operation and turn "d" from a long back
-            # into an int.
-            d += md << j * 15
-            d = long(d)
+        # Read all 15-bit digits, then combine them pairwise: adding one digit
+        # at a time to an ever longer integer is quadratic in the digit count.
+        digits = unpack("<%dh" % size, self.r_bytes(2 * size))
+
+        def combine(lo, hi):
+            if hi - lo <= 32:
+                value = 0
+                for j in range(lo, hi):
+                    value += digits[j] << (j - lo) * 15
+                return value
+            mid = (lo + hi) // 2
+            return combine(lo, mid) + (combine(mid, hi) << (mid - lo) * 15)
+
+        d = long(combine(0, size))
         if n < 0:
             d = long(d * -1)
 
